@@ -65,6 +65,39 @@ class _SymDelta:
     def total_seconds(self):
         return self.secs
 
+    # timedelta normalises to days >= any sign, 0 <= seconds < 86400
+    @property
+    def days(self):
+        return self.secs // 86400
+
+    @property
+    def seconds(self):
+        return self.secs % 86400
+
+    @property
+    def microseconds(self):
+        return 0
+
+    def __bool__(self):
+        return self.secs != 0
+
+    def __neg__(self):
+        return _SymDelta(-self.secs)
+
+    def __sub__(self, other):
+        if isinstance(other, _SymDelta):
+            return _SymDelta(self.secs - other.secs)
+        if isinstance(other, datetime.timedelta) and other.microseconds == 0:
+            return _SymDelta(self.secs - (other.days * 86400 + other.seconds))
+        return NotImplemented
+
+    def __add__(self, other):
+        if isinstance(other, _SymDelta):
+            return _SymDelta(self.secs + other.secs)
+        if isinstance(other, datetime.timedelta) and other.microseconds == 0:
+            return _SymDelta(self.secs + (other.days * 86400 + other.seconds))
+        return NotImplemented
+
     def __eq__(self, other):
         if isinstance(other, _SymDelta):
             return self.secs == other.secs
@@ -205,8 +238,11 @@ class SymST:
     broken-down reading.  isinstance(x, time.struct_time) is true under CrossHair's type() patch;
     calendar.timegm / time.mktime are patched to accept it; field access is not modelled."""
 
-    def __init__(self, wall):
+    def __init__(self, wall, gmtoff=None):
         self.wall = wall
+        self.tm_gmtoff = gmtoff      # None (as from datetime.timetuple()) or seconds east of UTC
+        self.tm_zone = None if gmtoff is None else 'XXX'
+        self.tm_isdst = -1
 
     def __ch_pytype__(self):
         return time.struct_time
